@@ -100,7 +100,7 @@ func init() {
 func c15Args() []gen.Expr {
 	return []gen.Expr{
 		gen.N(1), gen.N(0), gen.B("div", gen.N(0), gen.N(0)), gen.B("div", gen.N(1), gen.N(0)), &gen.Neg{E: gen.N(2)},
-		gen.S("a"), gen.S(""), gen.S("1"), gen.S("é"), gen.S("中a"), gen.F("true"), gen.F("false"),
+		gen.S("a"), gen.S(""), gen.S("1"), gen.S("é"), gen.S("中a"), gen.S("("), gen.F("true"), gen.F("false"),
 		relPath(gen.Ch("nosuch")), relPath(gen.Ch("*")), relPath(gen.Dot()), relPath(gen.At("*")), gen.AbsP(gen.DSlash(), gen.Ch("node()")),
 		gen.F("count", relPath(gen.Ch("*"))), gen.F("string", relPath(gen.Dot())), gen.F("not", relPath(gen.Ch("a"))), gen.F("round", gen.N(1.5)),
 		gen.F("reverse", relPath(gen.Ch("*"))), gen.F("position"), gen.F("last"), &gen.Group{E: relPath(gen.Ch("*"))}, gen.B("|", relPath(gen.Ch("a")), relPath(gen.Ch("b"))),
@@ -136,7 +136,7 @@ func c15Spaces(tier string) []*explore.Space {
 		}
 	}
 	fnSpace := &explore.Space{
-		Name: "Fn", Desc: "every function of the table x arity 0..max+1 x every argument tuple over 26 typed arguments (incl. non-ASCII strings) (numbers incl. NaN/Inf, strings, booleans, empty/non-empty node-sets, nested calls of every result type); bare and inside a predicate",
+		Name: "Fn", Desc: "every function of the table x arity 0..max+1 x every argument tuple over 27 typed arguments (incl. non-ASCII strings) (numbers incl. NaN/Inf, strings, booleans, empty/non-empty node-sets, nested calls of every result type); bare and inside a predicate",
 		Size:  len(fitems),
 		Label: func(i int) string { return fmt.Sprintf("%s/%d", fitems[i].name, fitems[i].n) },
 		Run: func(i int, w *explore.Worker) {
@@ -145,7 +145,7 @@ func c15Spaces(tier string) []*explore.Space {
 			if fc.n >= 3 {
 				alpha = args[:0:0]
 				for k, a := range args {
-					if k%2 == 0 || k >= 17 || k == 8 || k == 9 {
+					if k%2 == 0 || k >= 18 || k == 9 || k == 11 {
 						alpha = append(alpha, a)
 					}
 				}
@@ -275,7 +275,7 @@ func c15Spaces(tier string) []*explore.Space {
 			w.RefOutcome("n/a")
 		},
 	}
-	return []*explore.Space{fnSpace, mkSpace("Op", "every binary operator x every ordered pair of 26 typed operands (bare, in a predicate, negated) + 3-operand chains over 6 operands", opItems),
+	return []*explore.Space{fnSpace, mkSpace("Op", "every binary operator x every ordered pair of 27 typed operands (bare, in a predicate, negated) + 3-operand chains over 6 operands", opItems),
 		mkSpace("Misc", "numeric/odd predicates on all 13 axis names in every position, two- and three-step axis combinations incl. namespace::, variables", misc), tokSpace}
 }
 
